@@ -346,11 +346,22 @@ func VerifC18Mismatch() {
 	vars := map[string]interface{}{}
 	header := ""
 	omitAll := false
-	switch nondet.Choice("case", 14) {
+	switch nondet.Choice("case", 17) {
 	case 12:
 		over["n"] = "{}" // nested required x missing, nothing else in the object
 	case 13:
 		omitAll = true // no argument at all although most are required
+	case 14:
+		header = "query q($x: [Int]) "
+		over["l"] = "$x"
+		vars["x"] = []interface{}{nil}
+	case 15:
+		header = "query q($x: [Int]) "
+		over["l"] = "$x"
+		vars["x"] = []interface{}{float64(1), nil, float64(3)}
+	case 16:
+		header = "query q($x: Int) "
+		over["l"] = "[1, $x]" // element bound to a variable that is not supplied
 	case 0:
 		over["i32"] = "\"str\""
 	case 1:
